@@ -122,8 +122,8 @@ PROPS = {
         rule=("rapid-generated experiments of four kinds. Non-trivial: MQ - >= 64 symbols and >= 1 output byte 0xFF; T1 - >= 2 bit-planes and (height > 4 or style != 0); "
               "DWT - levels >= 1 and min(w,h) >= 2; RCT - >= 1 triple. Distinct = hash of the case."),
         assumptions=COMMON_ASSUME,
-        quick=dict(shards=16, checks=600, extra=["TestStyles", "TestExhaustive", dict(run="TestRaw", shards=8)], timeout=900),
-        thorough=dict(shards=16, checks=72000, extra=["TestStyles", "TestExhaustive", dict(run="TestRaw", shards=16)], timeout=3400, fuzztime=180),
+        quick=dict(shards=16, checks=600, extra=["TestStyles", "TestExhaustive", dict(run="TestRaw", shards=8), dict(run="TestMQBulk", shards=16)], timeout=900),
+        thorough=dict(shards=16, checks=72000, extra=["TestStyles", "TestExhaustive", dict(run="TestRaw", shards=16), dict(run="TestMQBulk", shards=16)], timeout=3400, fuzztime=180),
     ),
     "C12": dict(
         pkg="c12", fuzz=dict(target="FuzzProp"),
@@ -207,15 +207,15 @@ PROPS = {
         thorough=dict(shards=8, checks=600, extra=["TestSharedParams", dict(run="TestColdStart", shards=17)], timeout=3400, parallel=8, gomaxprocs=16),
     ),
     "C08": dict(
-        pkg="c0809", env={"VERIF_PROP": "C08"}, fuzz=dict(target="FuzzDecode"),
+        pkg="c0809", env={"VERIF_PROP": "C08", "VERIF_WORKER_HANG_S": "12"}, fuzz=dict(target="FuzzDecode"),
         aux_build=[dict(out="decworker", pkg="./cmd/decworker")],
         technique="structured-mutation fuzzing (rapid) of valid streams of every codec through every decoding entry point, plus enumerated truncations and single-header-byte corruptions; thorough adds coverage-guided native Go fuzzing",
         level_text="Exploration: a pool of small valid streams (library and reference encoders, third-party HTJ2K fixtures) is mutated by drawn programs (truncation, byte/field/length/word edits, segment delete/duplicate/move/overwrite, splices, random tails, marker insertion) and decoded through all 23 entry points (package Decode functions, the JPEG 2000 decoder object and its accessors, the HT factory, the codestream parser, the 14 registered codecs, RLE with hostile FrameInfo) inside worker child processes; every truncation offset and every header byte with a hostile value set is enumerated.",
         level_note="A recovered Go panic or a fatal stack overflow is a violation; allocation aborts and hangs are C09's subject and only counted. Trusts the worker protocol and the Go runtime.",
         rule=("rapid-generated and enumerated (entry point, byte string[, FrameInfo]). Non-trivial: the input still starts with the family's start marker (it reaches real parsing) and differs from its valid parent. Distinct = hash of the case."),
         assumptions=COMMON_ASSUME,
-        quick=dict(shards=16, checks=1500, extra=["TestValid", dict(run="TestTruncations", shards=8), dict(run="TestHeaderBytes", shards=8), dict(run="TestRLEGrammar", shards=4), dict(run="TestHeaders", shards=16), dict(run="TestPairBytes", shards=8), dict(run="TestJ2KFields", shards=8)], timeout=900, parallel=16),
-        thorough=dict(shards=16, checks=30000, extra=["TestValid", dict(run="TestTruncations", shards=8), dict(run="TestHeaderBytes", shards=16), dict(run="TestRLEGrammar", shards=8), dict(run="TestHeaders", shards=16), dict(run="TestPairBytes", shards=16), dict(run="TestJ2KFields", shards=8)], timeout=3400, fuzztime=600),
+        quick=dict(shards=16, checks=1500, extra=["TestValid", dict(run="TestTruncations", shards=8), dict(run="TestHeaderBytes", shards=8), dict(run="TestRLEGrammar", shards=4), dict(run="TestHeaders", shards=16), dict(run="TestPairBytes", shards=8), dict(run="TestJ2KFields", shards=8), dict(run="TestTilePartHeaders", shards=4)], timeout=900, parallel=16),
+        thorough=dict(shards=16, checks=30000, extra=["TestValid", dict(run="TestTruncations", shards=8), dict(run="TestHeaderBytes", shards=16), dict(run="TestRLEGrammar", shards=8), dict(run="TestHeaders", shards=16), dict(run="TestPairBytes", shards=16), dict(run="TestJ2KFields", shards=8), dict(run="TestTilePartHeaders", shards=4)], timeout=3400, fuzztime=600),
     ),
     "C09": dict(
         pkg="c0809", env={"VERIF_PROP": "C09"},
@@ -225,7 +225,7 @@ PROPS = {
         level_note="Peak heap is the sampled live-heap growth (1 ms sampler, GC percent 10) and is only consulted when the cumulative allocation already exceeds the budget; hangs that need deep un-generated state stay unseen.",
         rule=("rapid-generated and enumerated (entry point, byte string[, FrameInfo]). Non-trivial: the input starts with the family's start marker, differs from its valid parent and the pre-parser found a frame header (the budget formula was exercised). Distinct = hash of the case."),
         assumptions=COMMON_ASSUME + ["getrusage(RUSAGE_THREAD) of the locked decoding thread is a lower bound of the call's wall time"],
-        quick=dict(shards=16, checks=1500, extra=["TestValid", dict(run="TestTruncations", shards=8), dict(run="TestHeaderBytes", shards=8), dict(run="TestRLEGrammar", shards=4), dict(run="TestHeaders", shards=16), dict(run="TestPairBytes", shards=8), dict(run="TestJ2KFields", shards=8)], timeout=900, parallel=16),
-        thorough=dict(shards=16, checks=30000, extra=["TestValid", dict(run="TestTruncations", shards=8), dict(run="TestHeaderBytes", shards=16), dict(run="TestRLEGrammar", shards=8), dict(run="TestHeaders", shards=16), dict(run="TestPairBytes", shards=16), dict(run="TestJ2KFields", shards=8)], timeout=3400),
+        quick=dict(shards=16, checks=1500, extra=["TestValid", dict(run="TestTruncations", shards=8), dict(run="TestHeaderBytes", shards=8), dict(run="TestRLEGrammar", shards=4), dict(run="TestHeaders", shards=16), dict(run="TestPairBytes", shards=8), dict(run="TestJ2KFields", shards=8), dict(run="TestTilePartHeaders", shards=4)], timeout=900, parallel=16),
+        thorough=dict(shards=16, checks=30000, extra=["TestValid", dict(run="TestTruncations", shards=8), dict(run="TestHeaderBytes", shards=16), dict(run="TestRLEGrammar", shards=8), dict(run="TestHeaders", shards=16), dict(run="TestPairBytes", shards=16), dict(run="TestJ2KFields", shards=8), dict(run="TestTilePartHeaders", shards=4)], timeout=3400),
     ),
 }
